@@ -186,7 +186,10 @@ def zero_copy_channel(ctx):
     S, C, R, L = "s", "c", "r", "l"
     cfgs = [("local", 2, 2, True, {"s": [S, S, S, C, S], "r": [R, L, R]}, 2),
             ("local", 1, 1, False, {"s": [S, S, C, S], "r": [R, L, R, L]}, 2),
-            ("shm", 2, 1, True, {"s": [S, S, S, C], "r": [R, R, L]}, 2)]
+            ("shm", 2, 1, True, {"s": [S, S, S, C], "r": [R, R, L]}, 2),
+            # completion queue saturation: every release before the first reclaim
+            ("local", 1, 1, False, {"s": [S, S, S, S, S], "r": [R, L, R, L, R, L]}, 2),
+            ("local", 1, 2, True, {"s": [S, S, S, S, S], "r": [R, R, L, L, R, L]}, 2)]
     if not quick:
         cfgs += [("local", 2, 2, False, {"s": [S, S, S, C, S, C], "r": [R, R, L, R, L]}, 3),
                  ("shm", 1, 2, True, {"s": [S, S, S, C, C, S], "r": [R, R, L, L]}, 3),
